@@ -40,6 +40,11 @@ def cases(tier):
     a = {'ops': [irm.op(t, v, [0] * ar)], 'exports': []}
     b = {'ops': [irm.op(t, v, [0] * ar, share=['buffer', 0, 0])], 'exports': []}
     yield {'subs': [a, b], 'shared': True}
+  # float constants named identically in both subgraphs (activations differ):
+  # the library must reject the model or treat each subgraph as if alone
+  for a in g1:
+    for b in g1:
+      yield {'subs': [dict(a, cprefix='k_'), dict(b, cprefix='k_')], 'dup': True}
   if tier == 'thorough':
     for a in g2[::2]:
       for b in g2[::7]:
@@ -184,7 +189,7 @@ def run_case(case, note, skip):
     except Exception as e:  # no claim (C15 governs sharing)
       k = 'multi_raised:' + type(e).__name__
       cnt[k] = cnt.get(k, 0) + 1
-      if not case.get('shared'):
+      if not case.get('shared') and not case.get('dup'):
         res['fails'].append(_f(
             'multi_rejected_singles_accepted', f'{rkey}: {type(e).__name__}: '
             f'{e}'[:300], rkey, {'shared': False}, type(e).__name__))
